@@ -29,6 +29,16 @@ def members(leaf, rnd, nrand, basis):
     fixed, value, cls, sig = leaf
     fb = free_bits(fixed)
     full = sum(1 << b for b in fb)
+    if len(fb) <= 5:
+        # a small cube (an alias / special case carved out of a bigger encoding): every member
+        allm = []
+        for a in range(1 << len(fb)):
+            w = value
+            for k, b in enumerate(fb):
+                if (a >> k) & 1:
+                    w |= 1 << b
+            allm.append(w)
+        return allm
     out = [value, value | full]
 
     def rand():
